@@ -1061,4 +1061,38 @@ theorem diagonal_offset_beyond_extent_counterexample :
 
 example : (diagonalView [3, 4] 1 0 1).map (fun v => (v.dst, v.map [2])) = some ([3], some [2, 3]) := by decide
 
+/-! ### further counterexamples for known findings of the unchanged tree -/
+
+/-- `stack(a, b, axis=-1)`: `expand_dims` normalises the axis, `concatenate` does not — shape `(1,1)` instead of `(1,2)` -/
+theorem stack_negative_axis_counterexample :
+    (stackView [1] [1] (-1)).map (·.dst) ≠ (stackView [1] [1] 1).map (·.dst) := by decide
+
+/-- `compress([0], a, axis=-1)` on shape `[1]` returns the source (shape `[1]`), NumPy returns shape `[0]` -/
+theorem compress_negative_axis_counterexample :
+    (compressView [1] [0] (some (-1))).map (·.dst) ≠ (compressView [1] [0] (some 0)).map (·.dst) := by decide
+
+/-! ### tri / eye / identity (generators; NumPy: `tri[i,j] = 1 iff j ≤ i + k`, `eye[i,j] = 1 iff j = i + k`) -/
+
+theorem tri_shape (n : Nat) (m : Option Nat) (k : Int) :
+    (triGen n m k).dst = [n, match m with | some m => m | none => n] := by cases m <;> rfl
+
+theorem tri_elem (n : Nat) (m : Option Nat) (k : Int) (i j : Nat) :
+    (triGen n m k).elem [i, j] = if (j : Int) ≤ (i : Int) + k then 1 else 0 := rfl
+
+theorem eye_shape (n : Nat) (m : Option Nat) (k : Int) :
+    (eyeGen n m k).dst = [n, match m with | some m => m | none => n] := by cases m <;> rfl
+
+theorem eye_elem (n : Nat) (m : Option Nat) (k : Int) (i j : Nat) :
+    (eyeGen n m k).elem [i, j] = if (j : Int) = (i : Int) + k then 1 else 0 := rfl
+
+theorem identity_elem (n i j : Nat) : (identityGen n).dst = [n, n] ∧ (identityGen n).elem [i, j] = if j = i then 1 else 0 := by
+  refine ⟨rfl, ?_⟩
+  show (if (j : Int) = (i : Int) + 0 then (1 : Int) else 0) = _
+  by_cases h : j = i
+  · subst h; simp
+  · have : ¬ ((j : Int) = (i : Int) + 0) := by omega
+    rw [if_neg this, if_neg h]
+
+example : (triGen 3 (some 4) (-1)).elem [2, 1] = 1 ∧ (triGen 3 (some 4) (-1)).elem [2, 2] = 0 := by decide
+
 end NmVerif.Props.C04
